@@ -23,12 +23,18 @@ MANIFEST = {
             "transmitted) and server composed in a closed loop: exactly_once_closed_loop_partial, and for piggybacked responses with "
             "delays < ACK_TIMEOUT the timed argument that no copy arrives after the give-up is proved, giving exactly-once without "
             "side conditions, and 'never neither' whenever the client is quiet since such a server sends no empty ACK "
-            "(exactly_once_piggybacked, exactly_once_piggybacked_default, exactly_once_piggybacked_quiet). M (client, server personalities, network, "
+            "(exactly_once_piggybacked, exactly_once_piggybacked_default, exactly_once_piggybacked_quiet); for every such schedule of one "
+            "exchange, whatever the response style, the NACK handler is called only after all 1 + MAX_RETRANSMIT transmissions of the "
+            "request and no earlier than T * 2^MAX_RETRANSMIT after the last of them (giveup_never_premature), so the answer to the "
+            "last transmission still finds the request waiting. M (client, server personalities, network, "
             "event loop) is tied to the compiled code by exact equality of whole traces (every datagram, handler call, NACK, with "
             "virtual timestamps) of a real client and a real server context on generated loss/duplication/delay schedules "
             "(request tokens of 0, 1, 2..8 bytes; server personalities incl. 'da', a peer that sends its response as an ACK-typed "
             "message with a message id of its own after the Empty ACK); the property's clauses are also checked directly on the "
-            "implementation's trace. OBSERVATION ONLY (no theorem, no model): op xchg2 runs TWO client sessions with equal message ids "
+            "implementation's trace, including: a TOO_MANY_RETRIES NACK that came before 5 transmissions / less than 16 * ACK_TIMEOUT "
+            "after the last one, followed by the response, is reported as 'NACK and response' (never both) and is NOT taken for the open "
+            "finding (whose NACK is on time); schedules in which only the LAST transmission(s) of a request get through are generated "
+            "routinely. OBSERVATION ONLY (no theorem, no model): op xchg2 runs TWO client sessions with equal message ids "
             "in one context (shared context->sendqueue) and judges the implementation's trace by the oracle alone.",
     "note": "PARTIAL: open finding unsolicited_response_delivered - the client keeps no record of outstanding tokens, so a response "
             "arriving after the NACK, or a second response message from a server that processed a retransmitted request again, is "
@@ -56,14 +62,18 @@ REQUIRED_THEOREMS = ["exactly_once_partial", "response_stops_retransmission", "c
                      "exactly_once_piggybacked_default", "exactly_once_piggybacked_quiet", "run_con_responses_acked", "run_con_response_acked_at",
                      "run_duplicates_not_redelivered",
                      # never twice for ANY ACK-typed / CON response (matched on the send queue or not)
-                     "response_never_delivered_twice_in_a_row", "run_ack_response_at"]
+                     "response_never_delivered_twice_in_a_row", "run_ack_response_at",
+                     # the give-up (TOO_MANY_RETRIES) comes only after 1 + MAX_RETRANSMIT transmissions and T << MAX_RETRANSMIT after the last
+                     "giveup_never_premature"]
 RULE = ("schedules for harness/exchange.c (real client + real server context, virtual clock, scripted network): server personality "
         "(piggyback, coap_async delayed / triggered, application-delayed separate CON / NON / ACK-typed-with-own-mid, each with and "
         "without application-level request de-duplication) x request token (default 2 bytes, zero-length, 1 byte, 2..8 bytes) x fate of every datagram in order of transmission (deliver after d ms / drop / duplicate) x scripted "
         "handler verdicts x 1..5 requests (CON/NON, GET/POST/PUT/DELETE) sent one at a time; exhaustive: every drop pattern over the "
         "first 8 datagrams (with 3 token shapes) and every drop/duplicate pattern over the first 6 for each personality; random "
         "loss/dup/delay beyond; op xchg2: the same requests on two client sessions of one context with equal message ids, every drop "
-        "pattern over the first 8 datagrams per personality + random schedules; "
+        "pattern over the first 8 datagrams per personality + random schedules; 'last chance': the first 3 / 4 / 5 transmissions lost, then "
+        "every loss/delay pattern (1, 700, 1999 ms) over the next three datagrams per personality, and random runs with a block of 3..9 "
+        "losses followed by deliveries with delays below ACK_TIMEOUT; "
         "non-trivial = distinct schedule in which the response handler or the NACK handler ran")
 TRUSTED_BASE = ["Lean 4.33 kernel; axioms allowed: propext, Classical.choice, Quot.sound (audited per theorem each run)",
                 "harness/exchange.c + harness/sim_core.h (virtual clock, scripted network, simulation loop), generators, the trace oracle in props/C07.py",
@@ -149,6 +159,39 @@ def generate(ctx, escalate=False):
             else:
                 fates.append("d%d" % rdelay(rng))
         out.append(line(pers, D, cm, sm, rc, rs, mode, reqs, verd, fates))
+    # "last chance" (round 4, seeded C07-10): the first k transmissions of the request are lost, k around MAX_RETRANSMIT, so the
+    # exchange is decided by what happens to the LAST transmission(s) and in the wait after them (T << MAX_RETRANSMIT): every
+    # loss / delay pattern (delays up to just under ACK_TIMEOUT) over the next three datagrams, shortest / longest initial timeout
+    out += last_chance(rng, 25000 if thorough else 2500)   # last: the random streams above stay as they were
+    return out
+
+
+def last_chance(rng, nrand=2500):
+    out = []
+    for pers in PERS:
+        for k in (3, 4, 5):
+            for j, tail in enumerate(itertools.product(["d1", "d700", "d1999", "x"], repeat=3)):
+                rc = (0, 255)[(j + k) % 2]
+                out.append(line(pers, (300, 1, 1999)[j % 3], 1000, 5000, rc, (255, 0)[j % 2], "q", ["C1"], "", ["x"] * k + list(tail)))
+    # the same inside longer runs: some datagrams get through first (an earlier exchange, or the Empty ACK / first copies of this one),
+    # then a run of losses of about MAX_RETRANSMIT (.. 2 * MAX_RETRANSMIT + 1: both endpoints' retransmissions), then deliveries with
+    # delays anywhere below ACK_TIMEOUT; 1..3 requests, any token shape, any initial timeout
+    for n in range(nrand):
+        fates = ["d%d" % rdelay(rng) for _ in range(rng.choice([0, 0, 1, 2, 3, 4, 6]))]
+        fates += ["x"] * rng.choice([3, 4, 4, 4, 4, 5, 8, 9])
+        for _ in range(rng.choice([1, 2, 2, 3, 4, 6])):
+            c = rng.random()
+            fates.append("x" if c < 0.15 else ("u%d+%d" % (rdelay(rng), rdelay(rng)) if c < 0.25 else "d%d" % rng.choice([0, 1, 150, 700, 1999, rng.randrange(2000)])))
+        if rng.random() < 0.3:
+            fates += ["x"] * rng.choice([4, 5]) + ["d%d" % rdelay(rng) for _ in range(rng.choice([1, 2, 3]))]
+        cm = rng.choice([rng.randrange(65536), 65533, 1000])
+        two = n % 10 == 9
+        reqs = [rng.choice("CCCCN") + rng.choice("1234") for _ in range(rng.choice([1, 1, 2, 3]))]
+        if not two:
+            reqs = with_tokens(rng, reqs)
+        out.append(line(rng.choice(PERS), rng.choice([1, 50, 300, 500, 1999, 2500]), cm, cm if rng.random() < 0.3 else rng.randrange(65536),
+                        rng.choice([0, 255, rng.randrange(256)]), rng.choice([0, 255, rng.randrange(256)]), "q", reqs,
+                        "".join(rng.choice("ooof") for _ in range(rng.choice([0, 0, 4]))), fates, op=("xchg2" if two else "xchg")))
     return out
 
 
@@ -329,6 +372,16 @@ def oracle(inp, trace):
             # more than one distinct concluding message: a later, different response message or a response after the NACK
             if msgs[0][0] == "rsp" and any(m[0] == "nack" for m in msgs[1:]):
                 return ("once", "request %d (mid=%s) got a response and then a NACK: %s" % (i, r["mid"], msgs))
+            early = premature_giveup(ev, r)
+            if early and concl[0][:2] == ("nack", "retries") and any(c[0] == "rsp" for c in concl[1:]):
+                # "never both": the give-up came before the answer to the request's last transmission(s) could be back (theorem
+                # giveup_never_premature read on I: TOO_MANY_RETRIES only after 1 + MAX_RETRANSMIT transmissions and no earlier than
+                # ACK_TIMEOUT * 2^MAX_RETRANSMIT after the last one) - NOT the open finding, whose NACK is on time
+                rsp = [c for c in concl if c[0] == "rsp"][0]
+                return ("once", "never both: request %d (mid=%s, token %s) was given up (NACK TOO_MANY_RETRIES) at %d, %s, and then "
+                                "its %s response mid=%s was passed to the response handler at %d: NACK and response"
+                                % (i, r["mid"], r["tok"], concl[0][3], early, {"A": "piggybacked", "C": "separate CON", "N": "separate NON"}.get(rsp[1], rsp[1]),
+                                   rsp[2], rsp[3]))
             return ("unsolicited", "request %d (mid=%s, token %s) concluded by %s and then again by %s" % (i, r["mid"], r["tok"], msgs[0], msgs[1:]))
         if not msgs:
             got_empty_ack = any(k == "crx" and a[:3] == ["A", "0", r["mid"]] for k, t, a in ev)
@@ -340,6 +393,29 @@ def oracle(inp, trace):
             return ("once", "duplicate_not_redelivered: request %d: response %s delivered %d times" % (i, msgs[0], len(concl)))
         if len(msgs) == 1 and msgs[0][0] == "nack" and len(concl) > 1:
             return ("once", "request %d: NACK %s delivered %d times" % (i, msgs[0], len(concl)))
+    return None
+
+
+MAX_RETRANSMIT = 4
+
+
+def premature_giveup(ev, r):
+    """the first TOO_MANY_RETRIES NACK of request r: None when it is on time - all 1 + MAX_RETRANSMIT transmissions made and at least
+    ACK_TIMEOUT << MAX_RETRANSMIT (the shortest initial timeout, ACK_RANDOM_FACTOR 1.0, doubled MAX_RETRANSMIT times) after the last of
+    them - else the reason as text"""
+    tx = []
+    for k, t, a in ev[r["idx"]:]:
+        if k == "ctx" and len(a) == 4 and a[0] == "C" and a[2] == r["mid"] and 0 < int(a[1]) < 32:
+            tx.append(t)
+        if k == "nack" and a[0] == "retries" and a[1] == r["mid"]:
+            if not tx:
+                return "before any transmission"
+            if len(tx) < 1 + MAX_RETRANSMIT:
+                return "after only %d of the %d transmissions (last at %d)" % (len(tx), 1 + MAX_RETRANSMIT, tx[-1])
+            if t - tx[-1] < (ACK_TIMEOUT << MAX_RETRANSMIT):
+                return "only %d ms after its last transmission at %d (the wait after transmission %d is ACK_TIMEOUT*2^MAX_RETRANSMIT >= %d ms)" % (
+                    t - tx[-1], tx[-1], len(tx), ACK_TIMEOUT << MAX_RETRANSMIT)
+            return None
     return None
 
 
